@@ -1218,6 +1218,9 @@ package dig
 //@   allocates
 //@   ensures[C08:node-knows-its-home-and-origin] err == nil ==> n != nil && fresh(n) && n.s == s && n.origS == origS && !n.called && n.ctor == ctor && n.callback == opts.Callback
 //@   ensures[C18:node-id-is-the-code-pointer] err == nil ==> n.id == codePtr(valueOf(ctor))
+//@   site call dig.newParamList #1: assert[C16:parameters-are-parsed-against-the-home-scope,C05:parameters-are-parsed-against-the-home-scope,C08:parameters-are-parsed-against-the-home-scope] $arg0 == typeOf(ctor) && isScope($arg1) && scopeOf($arg1) == s
+//@   site call dig.newResultList #1: assert[C15:results-are-parsed-from-the-constructors-type,C09:results-are-parsed-from-the-constructors-type] $arg0 == typeOf(ctor) && $arg1.Name == opts.ResultName && $arg1.Group == opts.ResultGroup && $arg1.As == opts.ResultAs
+//@   site call (*dig.Scope).newGraphNode #1: assert[C16:the-node-joins-the-graphs-of-its-home-subtree,C05:the-node-joins-the-graphs-of-its-home-subtree] $recv == s
 //@   ensures[C16:new-node-is-in-its-home-graph,C05:new-node-is-in-its-home-graph] err == nil ==> len(s.gh.nodes) >= old(len(s.gh.nodes)) + 1 && n.orders != nil && fresh(n.orders)
 //@   ensures[C06:building-a-node-only-appends-graph-nodes] (forall g *graphHolder :: { g.nodes } existed(g) ==> len(g.nodes) >= old(len(g.nodes))) && (forall g *graphHolder, j int :: existed(g) && 0 <= j && j < old(len(g.nodes)) ==> g.nodes[j] == old(g.nodes[j]))
 //@   ensures[C06:tree-and-stores-kept] treeInv()
